@@ -117,6 +117,9 @@ def bootstrap():
     lg = logging.getLogger("pyubx2")
     lg.addHandler(logging.NullHandler())
     lg.propagate = False
+    level = os.environ.get("VERIF_PYUBX2_LOGLEVEL")
+    if level:  # the application has turned on (debug) logging for the package
+        lg.setLevel(getattr(logging, level))
     return pyubx2
 
 
